@@ -32,3 +32,44 @@ package sample
 //@ lemma C10.det-nesting props C10 : forall v uint32, m int, n int :: 1 <= m && m <= n && toInt(v) <= 4294967295 / toInt(n) ==> toInt(v) <= 4294967295 / toInt(m)
 //@ lemma C10.det-rate1-keeps-all props C10 : forall id string :: keepDet(id, 1) && keepDet(id, 0)
 //@ lemma C10.det-nested-keep props C10 : forall id string, m int, n int :: 1 <= m && m <= n && keepDet(id, n) ==> keepDet(id, m)
+
+// ---- C13: throughput goals scale with the current cluster size.
+// Ghost: the goal throughput currently in force inside a dynsampler-go sampler.
+//@ ghost goalInForce(ref) int
+//@ assume sample.CanSetGoalThroughputPerSec.SetGoalThroughputPerSec
+//@   ghostupdate goalInForce(this) :: goalInForce(this) == p0
+
+//@ spec clusterGoal(configured int, peers int) int := max(configured / peers, 1)
+// every cluster-sized throughput sampler runs with max(1, configured / peers)
+//@ spec goalsScaled(s *SamplerFactory) bool := forall k string :: in(s.sharedDynsamplers, k) && implements(s.sharedDynsamplers[k].dynsampler, CanSetGoalThroughputPerSec) && in(s.goalThroughputConfigs, k) ==> goalInForce(refOf(s.sharedDynsamplers[k].dynsampler)) == clusterGoal(s.goalThroughputConfigs[k], s.peerCount)
+// distinct definitions never share a dynsampler instance
+//@ spec instancesDistinct(s *SamplerFactory) bool := forall a string, b string :: in(s.sharedDynsamplers, a) && in(s.sharedDynsamplers, b) && a != b ==> refOf(s.sharedDynsamplers[a].dynsampler) != refOf(s.sharedDynsamplers[b].dynsampler)
+
+//@ objinv sample.SamplerFactory peers : this.peerCount >= 1
+//@ objinv sample.SamplerFactory distinct : instancesDistinct(this)
+
+//@ contract sample.(*SamplerFactory).updatePeerCounts props C13
+//@   requires s != nil
+//@   let got = s.Peers.GetPeers()
+//@   ensures[peer-count-follows-membership] s.peerCount == ite(s.Peers != nil && result1of(got) == nil && len(result0of(got)) > 0, len(result0of(got)), old(s.peerCount))
+//@   ensures[goals-scaled] goalsScaled(s)
+//@   ensures[registry-untouched] s.sharedDynsamplers == old(s.sharedDynsamplers) && s.goalThroughputConfigs == old(s.goalThroughputConfigs)
+//@   loop 1 invariant s.sharedDynsamplers == old(s.sharedDynsamplers) && s.goalThroughputConfigs == old(s.goalThroughputConfigs) && (forall k string :: seen(k) ==> in(s.sharedDynsamplers, k)) && (forall k string :: seen(k) && implements(s.sharedDynsamplers[k].dynsampler, CanSetGoalThroughputPerSec) && in(s.goalThroughputConfigs, k) ==> goalInForce(refOf(s.sharedDynsamplers[k].dynsampler)) == clusterGoal(s.goalThroughputConfigs[k], s.peerCount))
+//@   modifies s.peerCount, all(goalInForce)
+
+//@ contract sample.(*SamplerFactory).Start props C13 unshared
+//@   requires s != nil
+//@   ensures[one-peer-until-told-otherwise] s.peerCount == 1
+//@   ensures[goals-scaled] goalsScaled(s)
+//@   modifies s.peerCount, s.sharedDynsamplers, s.goalThroughputConfigs
+
+//@ contract sample.(*SamplerFactory).ClearDynsamplers props C13 havocheap
+//@   requires s != nil
+//@   ensures[registry-emptied] card(s.sharedDynsamplers) == 0 && card(s.goalThroughputConfigs) == 0 && (forall k string :: !in(s.sharedDynsamplers, k) && !in(s.goalThroughputConfigs, k))
+//@   ensures[goals-scaled] goalsScaled(s)
+
+// Whatever sampler type is created, on whichever worker, creation ends by
+// re-applying the cluster size (the call to updatePeerCounts).
+//@ contract sample.(*SamplerFactory).createSampler props C13 havoc
+//@   requires s != nil
+//@   ensures[goals-scaled-after-creation] result != nil ==> goalsScaled(s)
